@@ -116,6 +116,14 @@ def progDests : Prog → List String
   | .ite (.notNone d) t e => d :: (progDests t ++ progDests e)
   | .ite (.eqStr d _) t e => d :: (progDests t ++ progDests e)
 
+/-- Keywords passed at the call leaves that are reachable when condition `c` has truth value `pol`. -/
+def kwsWhen (c : Cond) (pol : Bool) : Prog → List String
+  | .error _ => []
+  | .call _ _ kws _ => kws.map Prod.fst
+  | .ite c' t e =>
+    if c' = c then (if pol then kwsWhen c pol t else kwsWhen c pol e)
+    else kwsWhen c pol t ++ kwsWhen c pol e
+
 /-- `type(s)` for the boolean-valued `type=` callables.  `bool` is Python's `bool(str)` (true iff the
 string is non-empty — the pre-repair parser used it); `str_to_bool` is tsdate's own converter, given
 by the two literal tuples the translator extracts from its source. -/
